@@ -9,23 +9,77 @@ From GI Require Import Lib.Bytes Gen.TsBatchConsts TsBatch.TsBatch TsBatch.TsBat
 Import ListNotations.
 
 (* The environment a script starts with is setup()'s list: the documented names (generated from
-   the source), the pass-through variables that are set, "exe", then Setup's additions; and it is
-   the same for every host environment that agrees on the variables setup() reads. *)
+   the source), the pass-through variables that are set, "exe" - filtered by Setup's allow-list if it
+   has one - then Setup's additions; without a filter it is exactly that list; every name in it is a
+   documented one (on the allow-list) or one of Setup's; and it is the same for every host environment
+   that agrees on the variables setup() reads. *)
 Theorem C04_env_from_scratch : forall cfg progs sched s p ss e t o,
   nth_error progs s = Some p -> nth_error (scripts (run cfg progs (init progs) sched)) s = Some ss ->
   In (EvSetup e t o) (obs ss) ->
-  e = initial_env (hostenv cfg) s (setup_adds p)
-  /\ map fst e = map fst setup_env_head ++ passthrough_present (hostenv cfg) ++ map fst setup_env_tail ++ map fst (setup_adds p)
+  e = setup_env (hostenv cfg) s (setup_keep p) (setup_adds p)
+  /\ (setup_keep p = None ->
+      map fst e = map fst setup_env_head ++ passthrough_present (hostenv cfg) ++ map fst setup_env_tail ++ map fst (setup_adds p))
+  /\ (forall k, In k (map fst e) ->
+        (In k (map fst setup_env_head ++ passthrough_present (hostenv cfg) ++ map fst setup_env_tail)
+         /\ match setup_keep p with Some l => name_in l k = true | None => True end)
+        \/ In k (map fst (setup_adds p)))
   /\ (forall h', (forall n, In n host_reads -> host_get h' n = host_get (hostenv cfg) n) ->
-                 initial_env h' s (setup_adds p) = e).
+                 setup_env h' s (setup_keep p) (setup_adds p) = e).
 Proof. exact env_from_scratch. Qed.
 Print Assumptions C04_env_from_scratch.
 
-(* A host variable setup() does not read is invisible, whatever its value. *)
-Theorem C04_other_host_variables_invisible : forall h s adds k v,
-  ~ In k host_reads -> initial_env ((k, v) :: h) s adds = initial_env h s adds.
-Proof. exact initial_env_ignores_other_var. Qed.
+(* A host variable setup() does not read is invisible, whatever its value and whatever Setup filters. *)
+Theorem C04_other_host_variables_invisible : forall h s keep adds k v,
+  ~ In k host_reads -> setup_env ((k, v) :: h) s keep adds = setup_env h s keep adds.
+Proof. exact setup_env_ignores_other_var. Qed.
 Print Assumptions C04_other_host_variables_invisible.
+
+(* A Setup that keeps nothing (an allow-list without a match, Env.Vars = nil) leaves exactly what it adds. *)
+Theorem C04_setup_that_keeps_nothing : forall h s adds, setup_env h s (Some []) adds = adds.
+Proof. exact setup_env_keep_nothing. Qed.
+Print Assumptions C04_setup_that_keeps_nothing.
+
+(* What a program started by the script sees - provided exec and execBackground pass
+   append(ts.env, "PWD="+ts.cd), which is what the generated constant says about the source now: the
+   script's own list followed by PWD.  The list is never empty (os/exec never substitutes the
+   environment of the test process), PWD is the directory the program runs in whatever the script set
+   PWD to, every other name has the script's value. *)
+Theorem C04_child_env_from_scratch : forall cfg s cd e,
+  pwd_appended cfg = exec_env_appends_pwd ->
+  child_env cfg s cd e = e ++ [(PWD, VWork s cd)]
+  /\ child_env cfg s cd e <> []
+  /\ env_get (child_env cfg s cd e) PWD = Some (VWork s cd)
+  /\ (forall k, bytes_eqb PWD k = false -> env_get (child_env cfg s cd e) k = env_get e k).
+Proof. exact child_env_scratch. Qed.
+Print Assumptions C04_child_env_from_scratch.
+
+(* That is what a probe (a foreground exec) records. *)
+Theorem C04_probe_sees_child_env : forall cfg s c ss,
+  pwd_appended cfg = exec_env_appends_pwd ->
+  exec_action cfg s c ss AProbe
+  = (c, add_obs ss [EvProbe (cwd ss) (senv ss ++ [(PWD, VWork s (cwd ss))]) (tr ss)], OCont).
+Proof. exact probe_outcome. Qed.
+Print Assumptions C04_probe_sees_child_env.
+
+(* Right after setup the names a program can see are documented ones (on Setup's allow-list), Setup's
+   own, and PWD: no other variable of the host, whatever Setup filters - nothing at all included. *)
+Theorem C04_child_env_names_after_setup : forall cfg s p k,
+  pwd_appended cfg = exec_env_appends_pwd ->
+  In k (map fst (child_env cfg s [] (setup_env (hostenv cfg) s (setup_keep p) (setup_adds p)))) ->
+  (In k (documented_names (hostenv cfg)) /\ match setup_keep p with Some l => name_in l k = true | None => True end)
+  \/ In k (map fst (setup_adds p)) \/ k = PWD.
+Proof. exact child_env_names_after_setup. Qed.
+Print Assumptions C04_child_env_names_after_setup.
+
+(* With ts.env handed over as it is, it is false: a Setup that keeps nothing makes every program
+   inherit the environment of the test process. *)
+Theorem C04_child_env_without_pwd_refuted :
+  exists cfg p s canary v,
+    pwd_appended cfg = false /\ ~ In canary host_reads /\
+    env_get (child_env cfg s [] (setup_env (hostenv cfg) s (setup_keep p) (setup_adds p))) canary = Some (VLit v)
+    /\ v <> [].
+Proof. exact child_env_without_pwd_refuted. Qed.
+Print Assumptions C04_child_env_without_pwd_refuted.
 
 (* $WORK after setup holds exactly the archive's files (the last entry of a name wins; an entry named
    $WORK/p is the file p), the directories leading to them, and .tmp; nothing is unpacked outside
@@ -134,6 +188,32 @@ Theorem C04_no_bg_left : forall cfg progs sched s p ss v,
   bgl ss = [] /\ forall h, In h (bg_started (obs ss)) -> In h (bg_gone (obs ss)) /\ In h (bg_waited (obs ss)).
 Proof. exact no_bg_left. Qed.
 Print Assumptions C04_no_bg_left.
+
+(* Deferred functions that do not return (they panic, or fail / skip the test through its T) change
+   the verdict only: a failure is never lost - a run that failed, or one of whose deferred functions
+   calls FailNow / Fatal, ends as a failure or a panic whatever the other functions do - and
+   functions that all return leave the verdict alone.  (That they all run, in reverse order, and that
+   every background command is still interrupted and waited for, is the two theorems above: they hold
+   for every script, these kinds of function and T.Skip / T.FailNow called by custom commands included.) *)
+Theorem C04_deferred_functions_cannot_hide_failure : forall d v,
+  (v = VFail \/ v = VSetupFail \/ exists x, In x d /\ defer_end x = DFailNow) ->
+  is_failure (defers_verdict d v) = true.
+Proof. exact defers_verdict_keeps_failure. Qed.
+Print Assumptions C04_deferred_functions_cannot_hide_failure.
+
+Theorem C04_returning_deferred_functions_keep_verdict : forall d v,
+  (forall x, In x d -> defer_end x = DRet) -> defers_verdict d v = v.
+Proof. exact defers_verdict_all_return. Qed.
+Print Assumptions C04_returning_deferred_functions_keep_verdict.
+
+(* A custom command that ends the run through the T it got from Env.T() (Skip, FailNow, Fatal) sends
+   the script straight to its deferred functions, background commands untouched; the end of run()
+   deals with them as on every other exit path (C04_no_bg_left). *)
+Theorem C04_run_ended_through_t : forall cfg p s c ss pc a,
+  ph ss = Running pc -> nth_error (body p) pc = Some a -> (a = ATSkip \/ a = ATFail) ->
+  sstep cfg p s c ss = (c, set_ph ss (Ending (match a with ATSkip => VSkip | _ => VFail end) SDefers), NoEffect).
+Proof. exact ended_through_t. Qed.
+Print Assumptions C04_run_ended_through_t.
 
 (* Without retention: the count is the number of unfinished scripts; the root is there (never
    removed, context not cancelled) while a script is unfinished, and has been removed exactly once,
